@@ -712,6 +712,36 @@ def run_image_corr(rep, rng, tier):
 
 
 # ------------------------------------------------------------------------------------------------ FAT32 BAD range
+def run_device_size_path(rep):
+    """the volume size taken from the DEVICE (no total_sectors option: format_volume seeks to the end and divides): default
+    options must succeed for every device of 42 .. 2^32-1 sectors of 512 bytes (a partial last sector is ignored) and be
+    rejected with InvalidInput beyond; the hook / sweep take the sector count as a parameter and never run this path"""
+    cases = [(41 * 512, False), (42 * 512, True), (42 * 512 + 511, True), (2048 * 512 + 1, True), ((1 << 32) * 512 // 2, True),
+             (U32 * 512 - 512, True), (U32 * 512, True), (U32 * 512 + 1, True), (U32 * 512 + 511, True), ((U32 + 1) * 512, False),
+             ((U32 + 1) * 512 + 5, False), ((1 << 33) * 512, False)]
+    scripts = [["dev %d 0" % n, "wlog 0", "format - - - - - - - - -", "mount 1 0 lossy", "stats", "unmount"] for n, _ in cases]
+    res = vlib.run_scripts(scripts)
+    done = 0
+    for (n, want_ok), sc_lines, ops in zip(cases, scripts, res):
+        rep.count()
+        f = ops[2]
+        if f.kind in ("panic", "hang"):
+            rep.violation("format_volume on a device of %d bytes (size taken from the device): %s" % (n, f.kind), {"script": sc_lines[:3]}); continue
+        if want_ok and f.kind != "ok":
+            rep.violation("default options on a device of %d bytes (%d whole sectors of 512 bytes, size taken from the device): format fails with %s"
+                          % (n, n // 512, f.payload[:40]), {"script": sc_lines[:3]}); continue
+        if not want_ok and not (f.kind == "err" and f.payload.startswith("InvalidInput")):
+            rep.violation("device of %d bytes (%d sectors): format must reject with InvalidInput, got %s %s" % (n, n // 512, f.kind, f.payload[:40]),
+                          {"script": sc_lines[:3]}); continue
+        if want_ok:
+            st = ops[4]
+            if ops[3].kind != "ok" or st.kind != "ok":
+                rep.violation("volume formatted from the device size (%d bytes) does not mount / report statistics: %s %s" % (n, ops[3].kind, st.kind),
+                              {"script": sc_lines}); continue
+        done += 1
+    rep.cov["device_size_path_cases"] = done
+
+
 def run_bad_range(rep):
     """The top of the FAT32 range (tables reaching cluster numbers 0x0FFFFFF0..): the extracted model cannot zero a 1 GiB table,
     so the BAD-range branch of format_fat is tied to the code through the statements of C06_image_fat / C06_image_free_space:
@@ -836,6 +866,7 @@ def run(rep, tier, seed):
     # ---- the whole device image after format_volume against the extracted format_image
     run_image_corr(rep, rng, tier)
     run_bad_range(rep)
+    run_device_size_path(rep)
     t4 = time.time()
     rep.cov["distribution"] = {
         "boundary_configurations": nconf, "boundary_lines": nb, "random_grid_lines": nr, "targeted_lines": nt, "malformed_lines": nm,
